@@ -363,15 +363,22 @@ int main(int argc, char** argv)
     }
   }
 #endif
+  // pointers to function pointers (and to data pointers) are DATA pointers: their cells hold
+  // offsets, whatever the backend does with function pointers themselves
+  using FnPP = int (**)(int);
+  using CFnPP = int (*const*)(int);
+  using IntPPP = int***;
 #define SC(D, S) cast_pair<0, D, S>(rng, #S, #D);
   SC(int, long) SC(long, int) SC(short, long long) SC(unsigned, int) SC(int, unsigned) SC(long long, unsigned long)
     SC(unsigned char, int) SC(bool, int) SC(double, int) SC(int, double) SC(float, double) SC(long, float)
       SC(unsigned long, long) SC(char, unsigned long long) SC(int, char) SC(void*, int*) SC(const int*, int*)
 #define RC(D, S) cast_pair<1, D, S>(rng, #S, #D);
   RC(char*, int*) RC(int*, char*) RC(void*, long*) RC(long*, void*) RC(const char*, int**) RC(int**, void*)
-    RC(unsigned long long*, char*) RC(PS*, char*) RC(char*, PS*)
+    RC(unsigned long long*, char*) RC(PS*, char*) RC(char*, PS*) RC(char*, FnPP) RC(FnPP, char*) RC(void*, FnPP)
+      RC(FnPP, IntPPP) RC(IntPPP, FnPP)
 #define CC(D, S) cast_pair<2, D, S>(rng, #S, #D);
   CC(int*, const int*) CC(const int*, int*) CC(char*, const char*) CC(const PS*, PS*) CC(void*, const void*)
+    CC(FnPP, CFnPP) CC(CFnPP, FnPP) SC(void*, FnPP) SC(CFnPP, FnPP)
   sandbox.destroy_sandbox();
   other.destroy_sandbox();
   out.close();
